@@ -4,7 +4,10 @@
 //! the seed.  usage: harness <ID> <quick|thorough> <seed> <out-file>
 mod proto;
 mod parse;
+mod c09;
+mod c10;
 mod c11;
+mod c12;
 
 use proto::*;
 
@@ -31,7 +34,10 @@ fn main() {
             }
             let toks: Vec<&str> = req.split(' ').collect();
             let ok = match id {
+                "C09" => c09::replay(&toks, &mut out),
+                "C10" => c10::replay(&toks, &mut out),
                 "C11" => c11::replay(&toks, &mut out),
+                "C12" => c12::replay(&toks, &mut out),
                 _ => false,
             };
             if !ok {
@@ -41,7 +47,10 @@ fn main() {
         }
     } else {
         match id {
+            "C09" => c09::generate(&mut rng, thorough, &mut out),
+            "C10" => c10::generate(&mut rng, thorough, &mut out),
             "C11" => c11::generate(&mut rng, thorough, &mut out),
+            "C12" => c12::generate(&mut rng, thorough, &mut out),
             _ => {
                 eprintln!("harness: unknown property {}", id);
                 std::process::exit(2);
